@@ -108,6 +108,19 @@ _check_degree = check
 def check(prog, run):
     _check_degree(prog, run)
     decrement(prog, run)
+    inputs_intact(prog, run)
+
+
+def inputs_intact(prog, run):
+    """the estimates are a function of the spectral matrix handed in: the extraction writes into nothing that may be (a view of) its
+    arguments - the stored singular values / vectors of the run among them - so that a second extraction starts from the same spectra"""
+    run.rule("R-inputs-intact", "EFDD_mpe and what it calls change none of their array arguments in place (stores, augmented assignments, out=, in-place methods, "
+             "through views and through helpers that hand back their argument)", 3)
+    from . import C15
+    reach = sorted(q for q in prog.reachable([prog.func(FN).qual]) if q in prog.functions and not q.startswith("pyoma2.functions.plot"))
+    C15.shared_data(prog, run.under({"R-shared-data": "R-inputs-intact"}), reach)
+    run.rule("R-dtype", "no returned table takes its dtype from the selected frequencies as the caller typed them (integers truncate what is stored)", 0)
+    astq.inherited_dtype_rule(prog, run, "R-dtype", reach)
 
 
 def decrement(prog, run):
